@@ -253,7 +253,7 @@ def run(ctx):
     opts = sorted(opts, key=lambda o: repr(sorted(o.items())))
     if not any("é s" in o["root"]["segs"] for o in opts):
         ctx.machinery("generator output lost the non-ASCII name")
-    n = (150 if ctx.quick else 3000) if ctx.tier != "tiny" else 8
+    n = (150 if ctx.quick else 3000) if ctx.tier != "tiny" else 14
     biggest = sorted(trees, key=lambda t: -len(t))[:6]
     rest = [t for t in trees if t not in biggest]
     picked = biggest + ctx.rng.sample(rest, min(n - len(biggest), len(rest)))
